@@ -4,6 +4,15 @@ from . import mockhost, hostdocs
 from .oracles import sig
 
 
+class GuidDict(dict):
+    """guid -> secret; guids are compared without regard to letter case (the host may print them in upper case)"""
+    def __setitem__(self, k, v): dict.__setitem__(self, k.lower(), v)
+    def __getitem__(self, k): return dict.__getitem__(self, k.lower())
+    def __contains__(self, k): return isinstance(k, str) and dict.__contains__(self, k.lower())
+    def get(self, k, d=None): return dict.get(self, k.lower(), d)
+    def pop(self, k, *a): return dict.pop(self, k.lower(), *a)
+
+
 class WsMock:
     def __init__(self, ip="168.63.129.16", port=80, rng=None, key_dir=None, fallback=None):
         self.rng = rng
@@ -12,9 +21,10 @@ class WsMock:
         self.enabled = True                    # v2
         self.rules = {}                        # endpoint -> AuthorizationItem dict (v2)
         self.latched = None                    # guid the host regards as attested
-        self.issued = {}                       # guid -> secret (every key ever issued)
+        self.issued = GuidDict()               # guid -> secret (every key ever issued)
+        self.guid_case = "lower"               # "upper": the host prints guids in upper case (key documents, status documents)
         self.latched_history = []              # guids in latch order
-        self.delivered_in_malformed_document = {}   # guid -> secret sent to the guest inside a key document it may not be able to parse
+        self.delivered_in_malformed_document = GuidDict()   # guid -> secret sent to the guest inside a key document it may not be able to parse
         self.log = []                          # (t, kind, detail)
         self.faults = {}                       # step -> list of fault specs consumed one per call; steps: status, acquire, attest
         self.key_dir = key_dir
@@ -52,6 +62,8 @@ class WsMock:
 
     def new_key(self):
         guid = str(uuid.UUID(int=self.rng.getrandbits(128), version=4)) if self.rng else str(uuid.uuid4())
+        if self.guid_case == "upper":
+            guid = guid.upper()
         secret = ("%064x" % self.rng.getrandbits(256)) if self.rng else os.urandom(32).hex()
         self.issued[guid] = secret
         return {"authorizationScheme": "Azure-HMAC-SHA256", "guid": guid, "incarnationId": 1, "issued": "2024-01-01T00:00:00Z", "key": secret}
